@@ -172,6 +172,9 @@ class Terms:
             return ("LEAF", norm(e))
         if isinstance(e, ast.IfExp):
             return ("ALT", ("LEAF", norm(e.test)), self._t(fn, e.body, env, depth + 1), self._t(fn, e.orelse, env, depth + 1))
+        if isinstance(e, ast.BoolOp) and len(e.values) == 2:
+            # `a or b` / `a and b` evaluate to one of their operands
+            return ("ALT", ("LEAF", norm(e.values[0])), self._t(fn, e.values[0], env, depth + 1), self._t(fn, e.values[1], env, depth + 1))
         if isinstance(e, ast.JoinedStr):
             parts: List[Term] = []
             for v in e.values:
